@@ -5,6 +5,9 @@ from sa.model import AnalysisError, Unknown, norm, unwrap
 from sa.query import Facts, call_name, find_calls, try_fold, calls_in, defs_of
 from sa.prov import Prov
 from .c06 import _strip, _block_of
+from . import c06
+from sa.decide import Walker, completions, cmp_parts
+from sa.canon import canon_list
 
 TECHNIQUE = ("loop-template rules (cycle guard, strictly growing visited set / strictly consumed chain) "
              "by dominance inside each iteration, guards-before-use by dominance, writer/reader inverse-pair "
@@ -34,138 +37,165 @@ def run(run):
     F = Facts(A)
     PV = Prov(A)
     C = P.cls("admin.certificate_v1.HSMCertificate")
-    _loops(run, F, C)
-    _guards(run, F, C)
+    _loops(run, F, PV, C)
+    _guards(run, F, PV, C)
     _roundtrip(run, PV)
 
 
-def _loops(run, F, C):
+def _loops(run, F, PV, C):
     P, A = run.P, run.A
-    run.rule("R1", "Loop templates. _parse walk: `current.name in visited` raises; `current.signed_by not in "
-             "self._elements` raises; `visited.append(current.name)` dominates the step `current = "
-             "self._elements[current.signed_by]`; visited starts empty per target; exit on ROOT_ELEMENT. "
-             "Validation walk: every iteration breaks or executes chain.pop(), and chain is not extended "
-             "inside that loop. No other `while` loops in the module.")
+    run.rule("R1", "Loop templates, decided on the decision table of one iteration (any surface shape). _parse walk, with SEEN = "
+             "cur.name in visited, ROOT = cur.signed_by == ROOT_ELEMENT, HAS = cur.signed_by in self._elements: SEEN -> raise "
+             "ValueError; not SEEN and ROOT -> leave; not SEEN, not ROOT, not HAS -> raise ValueError; otherwise "
+             "visited.append(cur.name) then cur = self._elements[cur.signed_by] and next iteration (so visited grows by a new name "
+             "each time: at most one iteration per element); per target visited = [] and cur = self._elements[target] under "
+             "target in self._elements. The two loops of validate_and_get_values follow the tables of rule W.R1 (climb: leaves at the "
+             "root or pushes and steps along the map _parse certified; validation: leaves or pops the chain, which it never "
+             "extends). Every other `while` in the certificate modules is a violation (no termination template).")
     parse = P.method(C, "_parse")
     g = A.cfg(parse, C)
-    whiles = [n for n in ast.walk(parse.node) if isinstance(n, ast.While)]
-    run.check("R1", len(whiles) == 1, "one walk loop in _parse", key="HSMCertificate._parse|loops", where=parse.loc(),
-              message=f"_parse has {len(whiles)} while loops")
-    for w in whiles:
-        steps = [n for n in ast.walk(w) if isinstance(n, ast.Assign) and norm(n.targets[0]) == "current"]
-        run.check("R1", len(steps) == 1 and norm(steps[0].value) == "self._elements[current.signed_by]",
-                  "walk step follows signed_by", key="HSMCertificate._parse|step", where=parse.loc(w),
-                  message="the parse walk does not step with `current = self._elements[current.signed_by]`")
-        for s in steps:
-            for sn in g.nodes_of(s):
-                facts = [f.text() for f in F.local(parse, C, sn)]
-                run.check("R1", "current.name not in visited" in facts,
-                          "step only for an element not seen before (cycle guard)",
-                          key="HSMCertificate._parse|cycle-guard", where=parse.loc(s),
-                          message="the parse walk can follow signed_by from an element it has already visited: a "
-                                  "signer cycle that does not include the target makes loading loop forever")
-                run.check("R1", "current.signed_by in self._elements" in facts,
-                          "step only to an existing signer", key="HSMCertificate._parse|dangling-guard",
-                          where=parse.loc(s), message="the parse walk can index a signer that is not in the elements")
-                run.check("R1", "current.signed_by != self.ROOT_ELEMENT" in facts,
-                          "walk ends at the root element", key="HSMCertificate._parse|root-exit", where=parse.loc(s),
-                          message="the parse walk does not stop at ROOT_ELEMENT")
-                apps = [n for n in ast.walk(w) if isinstance(n, ast.Call) and norm(n) == "visited.append(current.name)"]
-                okd = bool(apps) and all(any(g.dominates(an, sn) for an in g.nodes_of(a)) for a in apps)
-                run.check("R1", okd, "each visited element is recorded before stepping",
-                          key="HSMCertificate._parse|visited-append", where=parse.loc(s),
-                          message="the parse walk steps without recording the current element in `visited`: the "
+    tl = [n for n in A.own_nodes(parse) if isinstance(n, ast.For) and norm(n.iter) == "self._targets" and isinstance(n.target, ast.Name)]
+    run.require(len(tl) == 1, "_parse: the sanity loop over self._targets vanished (idiom not understood)")
+    tloop = tl[0]
+    TGT = tloop.target.id
+    whiles = [n for n in A.own_nodes(parse) if isinstance(n, ast.While) and any(n is x for x in ast.walk(tloop))]
+    run.require(len(whiles) == 1, f"_parse: expected one walk loop inside the target loop, found {len(whiles)} (idiom not understood)")
+    w = whiles[0]
+    head, after = c06._while_nodes(g, w)
+    run.require(head is not None, "_parse: walk loop structure not understood")
+    steps = [n for n in ast.walk(w) if isinstance(n, ast.Assign) and len(n.targets) == 1 and isinstance(n.targets[0], ast.Name)
+             and isinstance(n.value, ast.Subscript) and norm(n.value.value) == "self._elements"]
+    run.require(len(steps) >= 1, "_parse: the walk step over self._elements vanished (idiom not understood)")
+    X = steps[0].targets[0].id
+    state = {}
+
+    def atom(e):
+        cp = cmp_parts(e)
+        if cp is None:
+            return None
+        l, op, r = cp
+        lt, rt = norm(l), norm(r)
+        if op in ("in", "not in") and lt == f"{X}.name" and isinstance(r, ast.Name):
+            if state.setdefault("VIS", r.id) == r.id:
+                return ("SEEN", op == "in")
+        if op in ("in", "not in") and lt == f"{X}.signed_by" and rt == "self._elements":
+            return ("HAS", op == "in")
+        if op in ("==", "!=") and {lt, rt} == {f"{X}.signed_by", "self.ROOT_ELEMENT"}:
+            return ("ROOT", op == "==")
+        return None
+    atoms = ["SEEN", "ROOT", "HAS"]
+    n_cases = 0
+    for lf in Walker(A, parse, C, atom, stop_at_for=True).walk(head, stops={head, after}):
+        kind = "next" if lf.kind == "stop" and lf.node is head else ("leave" if lf.kind == "stop" else lf.kind)
+        pushes = [v for k, st, v in lf.effects if k == "expr" and isinstance(v, ast.Call) and call_name(v) == "append" and isinstance(v.func.value, ast.Name)]
+        for v in completions({k: b for k, b in lf.pc.items() if k in atoms}, atoms):
+            n_cases += 1
+            desc = ", ".join(f"{a}={'T' if v[a] else 'F'}" for a in atoms)
+            if v["SEEN"] and v["ROOT"]:
+                want = ("raise", "leave")     # cannot happen: an element signed by the root is never stepped from
+            elif v["SEEN"]:
+                want = ("raise",)
+            elif v["ROOT"]:
+                want = ("leave",)
+            elif not v["HAS"]:
+                want = ("raise",)
+            else:
+                want = ("next",)
+            keyk = {("raise",): "cycle-guard" if v["SEEN"] else "dangling-guard", ("leave",): "root-exit", ("next",): "step", ("raise", "leave"): "cycle-guard"}[want]
+            run.check("R1", kind in want, f"[{desc}] -> {'/'.join(want)}", key=f"HSMCertificate._parse|{keyk}|{desc}", where=parse.loc(w),
+                      message=f"parse walk, case [{desc}] (SEEN: element already visited, ROOT: signed by the root, HAS: signer among the elements): the loop does "
+                              f"`{kind}`, the template requires `{'/'.join(want)}`" + (": a signer cycle that does not include the target makes loading loop forever"
+                                                                                      if v["SEEN"] else ""))
+            if kind == "raise" and "raise" in want and lf.value is not None:
+                run.check("R1", isinstance(lf.value, ast.Call) and norm(lf.value.func) == "ValueError", "the walk fails with ValueError",
+                          key="HSMCertificate._parse|raise-type", where=parse.loc(lf.node.ast), message=f"the parse walk raises `{norm(lf.value)[:50]}`, not a ValueError")
+            if kind == "next" and want == ("next",):
+                VIS = state.get("VIS")
+                okp = len(pushes) == 1 and VIS is not None and pushes[0].func.value.id == VIS and len(pushes[0].args) == 1 \
+                    and norm(pushes[0].args[0]) == f"{X}.name"
+                run.check("R1", okp, "each visited element is recorded before stepping", key="HSMCertificate._parse|visited-append", where=parse.loc(w),
+                          message=f"the parse walk steps having recorded {[norm(p) for p in pushes]} (expected `{VIS}.append({X}.name)` of the element being left): the "
                                   "cycle guard can never fire for that element")
-        # the guards raise
-        for txt in ("current.name in visited", "current.signed_by not in self._elements"):
-            conds = [n for n in g.nodes if n.kind == "cond" and norm(n.ast) == txt]
-            for c in conds:
-                t = [n for n in g.nodes if n.kind == "T" and n.cond is c]
-                ok = bool(t) and g.exit not in g.reachable(t[0]) and not any(
-                    x.kind == "join" and x.note == "while-head" for x in g.reachable(t[0]))
-                run.check("R1", ok, f"`{txt}` raises", key=f"HSMCertificate._parse|{txt}|raises", where=parse.loc(c.ast),
-                          message=f"`{txt}` no longer ends the load with an error")
-        vdefs = [d for d in defs_of(A, parse, "visited")]
-        okv = len(vdefs) == 1 and norm(vdefs[0].value) == "[]" and not any(vdefs[0] is x for x in ast.walk(w))
-        tl = [n for n in ast.walk(parse.node) if isinstance(n, ast.For) and norm(n.iter) == "self._targets"]
-        okv = okv and bool(tl) and any(vdefs[0] is x for x in ast.walk(tl[0]))
-        run.check("R1", okv, "visited starts empty for every target", key="HSMCertificate._parse|visited-init",
-                  where=parse.loc(), message="`visited` is not re-initialised to [] for every target")
-        # nothing else extends/clears visited
-        muts = [n for n in ast.walk(parse.node) if isinstance(n, ast.Call) and isinstance(n.func, ast.Attribute)
-                and norm(n.func.value) == "visited" and n.func.attr != "append"]
-        run.check("R1", not muts, "visited only grows", key="HSMCertificate._parse|visited-mutations", where=parse.loc(),
-                  message="`visited` is modified by something other than append")
+                step = lf.env.get(X, lf.bind.get(X))
+                run.check("R1", step is not None and norm(step) == f"self._elements[{X}.signed_by]", "walk step follows signed_by", key="HSMCertificate._parse|step",
+                          where=parse.loc(w), message=f"the parse walk steps to `{norm(step) if step is not None else X}`, not to `self._elements[{X}.signed_by]`")
+                muts = [norm(vv)[:40] for k, st, vv in lf.effects if k == "expr" and isinstance(vv, ast.Call) and isinstance(vv.func, ast.Attribute)
+                        and isinstance(vv.func.value, ast.Name) and vv.func.value.id == VIS and vv.func.attr != "append"]
+                run.check("R1", not muts and VIS not in lf.env and VIS not in lf.bind, "visited only grows", key="HSMCertificate._parse|visited-mutations",
+                          where=parse.loc(w), message=f"`{VIS}` is modified by something other than append ({muts})")
+    run.floor("R1", "parse-walk decision cases", n_cases, 8)
+    VIS = state.get("VIS")
+    if VIS is None:
+        run.check("R1", False, "the walk keeps a record of visited elements", key="HSMCertificate._parse|cycle-guard|absent", where=parse.loc(w),
+                  message="the parse walk never tests `<element>.name in <visited>`: a signer cycle makes loading loop forever")
+        VIS = "visited"
+    fh = [n for n in g.nodes if n.kind == "for" and n.ast is tloop]
+    ft = [n for n in g.nodes if n.kind == "T" and n.note == "has-item" and n.cond in fh]
+    run.require(len(ft) == 1, "_parse: target loop structure not understood")
+
+    def atom0(e):
+        cp = cmp_parts(e)
+        if cp is not None and cp[1] in ("in", "not in") and norm(cp[0]) == TGT and norm(cp[2]) == "self._elements":
+            return ("INEL", cp[1] == "in")
+        return None
+    for lf in Walker(A, parse, C, atom0).walk(ft[0], stops={head}):
+        if lf.kind == "raise":
+            continue
+        run.check("R1", lf.kind == "stop", "every target reaches the walk or is rejected", key="HSMCertificate._parse|init|reaches-walk", where=parse.loc(tloop),
+                  message=f"for some target _parse does `{lf.kind}` at line {lf.node.lineno} before the sanity walk")
+        if lf.kind != "stop":
+            continue
+        run.check("R1", lf.pc.get("INEL") is True, "target checked before indexing", key="HSMCertificate._parse|target-guard", where=parse.loc(tloop),
+                  message="a target that is not among the elements is indexed without a check")
+        for nm, want in ((VIS, "[]"), (X, f"self._elements[{TGT}]")):
+            got = lf.env.get(nm, lf.bind.get(nm))
+            run.check("R1", got is not None and norm(got) == want, f"`{nm} = {want}` for every target",
+                      key=f"HSMCertificate._parse|{'visited' if nm == VIS else 'current'}-init", where=parse.loc(),
+                      message=f"`{nm}` is `{norm(got) if got is not None else 'left over from the previous target'}` when the walk of a target starts, not `{want}`")
+    # the two loops of validate_and_get_values: shared tables
+    run.rid_prefix = "W."
+    try:
+        c06.chain_walk(run, F, PV, C)
+    finally:
+        run.rid_prefix = ""
     val = P.method(C, "validate_and_get_values")
-    gv = A.cfg(val, C)
-    vw = [n for n in ast.walk(val.node) if isinstance(n, ast.While)]
-    run.floor("R1", "while loops in validate_and_get_values", len(vw), 2)
-    walk = vw[1]
-    head = [n for n in gv.nodes if n.kind == "join" and n.ast is walk and n.note == "while-head"][0]
-    pops = [x for n in ast.walk(walk) if isinstance(n, ast.Call) and norm(n) == "chain.pop()" for x in gv.nodes_of(n)]
-    body_first = [s for s in gv.succ[head]]
-    # every cycle through the head passes a pop
-    cyc = False
-    after = [n for n in gv.nodes if n.kind == "join" and n.ast is walk and n.note == "while-after"]
-    for s in gv.succ[head]:
-        p = gv.witness_path(s, head, avoid=set(pops) | set(after), edge_ok=lambda a, b: not gv.is_exc_edge(a, b))
-        if p:
-            cyc = True
-    run.check("R1", bool(pops) and not cyc, "every iteration of the validation walk pops the chain or leaves",
-              key="HSMCertificate.validate_and_get_values|walk|progress", where=val.loc(walk),
-              message="the validation walk can iterate without consuming the chain")
-    ext = [n for n in ast.walk(walk) if isinstance(n, ast.Call) and isinstance(n.func, ast.Attribute)
-           and norm(n.func.value) == "chain" and n.func.attr in ("append", "extend", "insert")]
-    run.check("R1", not ext, "chain is not extended while walking down", key="HSMCertificate.validate_and_get_values|walk|extends",
-              where=val.loc(walk), message="the validation walk extends the chain it consumes")
-    # the climb loop relies on the map certified by _parse: same follow step
-    climb = vw[0]
-    st = [n for n in ast.walk(climb) if isinstance(n, ast.Assign) and norm(n.targets[0]) == "current"]
-    run.check("R1", len(st) == 1 and norm(st[0].value) == "self._elements[current.signed_by]",
-              "climb uses the same follow step the parse walk certified", key="HSMCertificate.validate_and_get_values|climb|step",
-              where=val.loc(climb), message="the climb follows something other than signed_by over self._elements")
     # _parse is the only loader and runs in the constructor
     ini = P.method(C, "__init__")
     pc = find_calls(A, ini, "_parse")
     run.check("R1", len(pc) == 1, "constructor parses the given map", key="HSMCertificate.__init__|_parse", where=ini.loc(),
               message="HSMCertificate.__init__ no longer calls _parse on the certificate map")
-    # no other while loops in certificate modules
+    # loop census by source location (inlined copies keep the location of their original)
+    known_loc = {(parse.module.name, w.lineno, w.col_offset)}
+    for l in [n for n in A.own_nodes(val) if isinstance(n, ast.While)]:
+        known_loc.add((val.module.name, l.lineno, l.col_offset))
     for modname in ("admin.certificate_v1", "admin.certificate_v2", "admin.certificate"):
         mod = P.module(modname)
-        n_while = len([n for n in ast.walk(mod.tree) if isinstance(n, ast.While)])
-        run.check("R1", n_while == (3 if modname.endswith("v1") else 0), f"{modname}: known loops only",
-                  key=f"{modname}|while-count", where=mod.relpath,
-                  message=f"{modname} has {n_while} while loops; each needs a termination template")
+        for n in ast.walk(mod.tree):
+            if isinstance(n, ast.While) and (modname, n.lineno, n.col_offset) not in known_loc:
+                run.fail("R1", f"{modname}|while@{n.lineno}", f"{mod.relpath}:{n.lineno}",
+                         f"{modname} has a `while` loop at line {n.lineno} that is none of the three loops with a termination template")
+        run.ok("R1", f"{modname}: known loops only", mod.relpath)
 
 
-def _guards(run, F, C):
+def _guards(run, F, PV, C):
     P, A = run.P, run.A
-    run.rule("R2", "Guards before use: every `self._elements[target]` in _parse is dominated by `target in "
-             "self._elements`; from_jsonfile raises ValueError unless the document is a dict with a supported "
-             "version; _parse raises unless targets is a list and elements is present; each element constructor "
-             "raises ValueError on a missing/invalid field; v2 from_dict rejects unknown types.")
+    run.rule("R2", "Guards before use (facts compared with local names expanded and `not (a == b)` folded): from_jsonfile builds a "
+             "certificate only when the document is a dict with a supported version; _parse completes only when the version "
+             "matches, targets is a list and elements is present; each element constructor completes only when every field it "
+             "reads was checked; v2 from_dict dispatches only on a checked element type.")
     parse = P.method(C, "_parse")
-    g = A.cfg(parse, C)
-    subs = [n for n in ast.walk(parse.node) if isinstance(n, ast.Subscript) and norm(n) == "self._elements[target]"
-            and isinstance(n.ctx, ast.Load)]
-    run.floor("R2", "self._elements[target] uses", len(subs), 1)
-    for s in subs:
-        for sn in g.nodes_of(s):
-            facts = [f.text() for f in F.local(parse, C, sn)]
-            run.check("R2", "target in self._elements" in facts, "target checked before indexing",
-                      key="HSMCertificate._parse|target-guard", where=parse.loc(s),
-                      message="a target that is not among the elements is indexed without a check")
-    ef = [f.text() for f in F.exit_facts(parse, C)]
-    for want in ("version == self.VERSION", "'targets' in certificate_map", "type(certificate_map['targets']) == list",
+    ef = F.exit_texts(parse, C, PV)
+    for want in ("certificate_map.get('version') == self.VERSION", "'targets' in certificate_map", "type(certificate_map['targets']) == list",
                  "'elements' in certificate_map"):
         run.check("R2", want in ef, f"_parse requires `{want}`", key=f"HSMCertificate._parse|requires|{want}",
                   where=parse.loc(), message=f"_parse can complete without `{want}`")
     fj = P.method(C, "from_jsonfile")
     gj = A.cfg(fj, C)
+    cmv = None
     for r in [n for n in A.own_nodes(fj) if isinstance(n, ast.Return)]:
         for rn in gj.nodes_of(r):
-            facts = [f.text() for f in F.local(fj, C, rn)]
-            for want in ("type(certificate_map) == dict", "version in cls.VERSION_MAPPING"):
+            facts = F.expanded(fj, C, rn, PV, stop=("certificate_map",))
+            for want in ("type(certificate_map) == dict", "certificate_map.get('version') in cls.VERSION_MAPPING"):
                 run.check("R2", want in facts, f"from_jsonfile requires `{want}`", key=f"HSMCertificate.from_jsonfile|requires|{want}",
                           where=fj.loc(r), message=f"from_jsonfile can build a certificate without `{want}`")
     vm = P.class_const(C, "VERSION_MAPPING")
@@ -177,7 +207,7 @@ def _guards(run, F, C):
     gf = A.cfg(fd, EL)
     for r in [n for n in A.own_nodes(fd) if isinstance(n, ast.Return)]:
         for rn in gf.nodes_of(r):
-            facts = [f.text() for f in F.local(fd, EL, rn)]
+            facts = F.expanded(fd, EL, rn, PV)
             run.check("R2", "element_map.get('type') in cls.TYPE_MAPPING" in facts, "unknown element types rejected",
                       key="HSMCertificateV2Element.from_dict|type-guard", where=fd.loc(r),
                       message="from_dict dispatches on an element type it did not check")
@@ -188,12 +218,36 @@ def _guards(run, F, C):
                         ("admin.certificate_v2.HSMCertificateV2ElementX509", ["name", "signed_by", "message"])):
         ci = P.cls(cname)
         ini = P.method(ci, "__init__")
-        ef = " ; ".join(f.text() for f in F.exit_facts(ini, ci))
+        ef = " ; ".join(sorted(F.exit_texts(ini, ci, PV)))
+        gi = A.cfg(ini, ci)
+        # a raise guarded by `<field> is not valid hex` (possibly together with `<field> != ''` for a field that may be empty)
+        rejecting = set()
+        fns_ = [ini] + [m for c_ in ci.mro() for nm_, m in c_.methods.items() if nm_ == "_init_with_map"][:1]
+        for f_ in fns_:
+          gi = A.cfg(f_, ci)
+          for r in [n for n in A.own_nodes(f_) if isinstance(n, ast.Raise)]:
+            for rn in gi.nodes_of(r):
+                for t in F.expanded(f_, ci, rn, PV):
+                    m = re.fullmatch(r"not is_nonempty_hex_string\(element_map(?:\.get\('(\w+)'\)|\['(\w+)'\])\)", t)
+                    if m:
+                        rejecting.add(m.group(1) or m.group(2))
         for k in keys:
             ok = (f"'{k}' in element_map" in ef) or (f"is_nonempty_hex_string(element_map.get('{k}'))" in ef) \
-                or (f"is_nonempty_hex_string(element_map['{k}'])" in ef) or (k == "message" and "X509" in cname)
+                or (f"is_nonempty_hex_string(element_map['{k}'])" in ef) or (k == "message" and "X509" in cname) or k in rejecting
             run.check("R2", ok, f"{ci.name}: `{k}` required", key=f"{ci.name}.__init__|requires|{k}", where=ini.loc(),
                       message=f"{ci.name} can be constructed from a map without a valid `{k}`")
+        # closed world: no condition on a field beyond the ones the writer guarantees (to_dict output must load again)
+        allowed = re.compile(r"^('(\w+)' in element_map|is_nonempty_hex_string\(element_map(\.get\('\w+'\)|\['\w+'\])\)|element_map\['name'\] in self\.VALID_NAMES"
+                             r"|element_map\.get\('auth_data'\) != ''|not element_map\.get\('auth_data'\) == '')$")
+        extra = sorted(t for t in F.exit_texts(ini, ci, PV) if "element_map" in t and not allowed.match(t) and not t.startswith("$"))
+        run.check("R2", not extra, f"{ci.name}: no further conditions on the fields", key=f"{ci.name}.__init__|extra-conditions", where=ini.loc(),
+                  message=f"{ci.name} additionally requires {extra[:2]}: a value that to_dict() can emit (e.g. an empty re-encoding) may be rejected when "
+                          "the saved file is loaded again")
+        iv = P.method(ci, "is_valid")
+        giv = A.cfg(iv, ci)
+        run.check("R2", giv.raise_exit not in giv.reachable(giv.entry), f"{ci.name}.is_valid never raises (the verdict is a value)",
+                  key=f"{ci.name}.is_valid|raises", where=iv.loc(),
+                  message=f"an exception can escape {ci.name}.is_valid: validate_and_get_values would raise instead of reporting (False, <element>)")
         if "X509" in cname:
             iw = P.method(ci, "_init_with_map")
             tr = [n for n in A.own_nodes(iw) if isinstance(n, ast.Try)]
@@ -283,8 +337,12 @@ def _roundtrip(run, PV):
     td = P.method(C, "to_dict")
     d = [n for n in A.own_nodes(td) if isinstance(n, ast.Dict)][0]
     got = {k.value: norm(v) for k, v in zip(d.keys, d.values)}
+    for k, v in zip(d.keys, d.values):
+        if k.value == "elements":
+            cl_ = canon_list(v)
+            got["elements"] = " + ".join(cl_) if cl_ is not None else norm(v)
     run.check("R3", got == {"version": "self.VERSION", "targets": "self._targets",
-                            "elements": "list(map(lambda e: e.to_dict(), self._elements.values()))"},
+                            "elements": "map(ELEM(self._elements.values()).to_dict())"},
               "certificate to_dict emits version, targets and every element", key="HSMCertificate.to_dict|shape",
               where=td.loc(), message=f"HSMCertificate.to_dict is {got}")
     sv = P.method(C, "save_to_jsonfile")
